@@ -16,15 +16,16 @@ git apply $DEST/patch.diff
 PYTHONPATH=$WT/src /venv/bin/python $DEST/demo.py > $DEST/demo_patched.out 2>&1; D1=$?
 BL=$(/venv/bin/python /verif/tools/baseline.py --repo $WT | tail -1)
 cd /verif
-OUT=$(VERIF_REPO_SRC=$WT/src /venv/bin/python /verif/vp_check.py $P --tier quick --no-evidence 2>&1 | grep -v "^KNOWN"); RC=$?
+OUT=$(VERIF_REPO_SRC=$WT/src /venv/bin/python /verif/vp_check.py $P --tier quick --no-evidence 2>&1 | grep -v "^KNOWN")
 RC=$(echo "$OUT" | grep -c "^VIOLATION")
+HE=$(echo "$OUT" | grep -c "^HARNESS-ERROR")
 echo "$OUT" | head -12 | cut -c1-700 > $DEST/check_quick.out
 git -C $WT checkout -q -- .
-python3 - "$DEST" "$D0" "$D1" "$BL" "$RC" <<'PY'
+python3 - "$DEST" "$D0" "$D1" "$BL" "$RC" "$HE" <<'PY'
 import json, sys
-dest, d0, d1, bl, rc = sys.argv[1:6]
+dest, d0, d1, bl, rc, he = sys.argv[1:7]
 ev = {"applies": True, "demo_exit_unpatched": int(d0), "demo_exit_patched": int(d1), "baseline_with_patch": bl,
-      "quick_check_violation_lines": int(rc), "caught_by_quick": int(rc) > 0,
+      "quick_check_violation_lines": int(rc), "quick_check_harness_error_lines": int(he), "caught_by_quick": int(rc) > 0,
       "ran": ["demo.py without and with patch in a scratch worktree", "tools/baseline.py --repo <worktree> with patch", "vp_check.py --tier quick against the patched worktree (VERIF_REPO_SRC)"]}
 json.dump(ev, open(dest + "/eval.json", "w"), indent=1)
 print(dest, json.dumps(ev))
